@@ -6,7 +6,8 @@
 From Coq Require Import Reals ZArith List Bool PrimFloat.
 From Flocq Require Import Raux Generic_fmt Round_NE.
 From PR Require Import Base.Num Base.RNum Base.F64 Base.ZX Base.Slice Model.Grid Model.CropBase Model.Partition Model.Crop
-     Gen.GenSubset Gen.GenC11 Proofs.Grid_real Proofs.C11_crop Proofs.C11_same_crs Proofs.C11_swath.
+     Gen.GenSubset Gen.GenC11 Proofs.Grid_real Proofs.C11_crop Proofs.C11_same_crs Proofs.C11_swath
+     Proofs.C11_gen Proofs.C11_history Proofs.C11_gas Proofs.C19_divisible.
 Import ListNotations.
 Open Scope R_scope.
 
@@ -128,3 +129,54 @@ Proof. exact swath_pixel. Qed.
 Print Assumptions C11_swath_pixel_covered.
 Example C11_swath_ex : swath_slices [[3; 3]; [4; 2]]%Z [false; true; false; true] = Some (mk_slice 3 7, mk_slice 0 7).
 Proof. exact swath_ex. Qed.
+
+(* ---- wave 2 ---- *)
+
+(* the model the theorems above are about IS the code: for EVERY arithmetic (reals, binary64) crop_slices equals the
+   composition of the definitions regenerated on every run from AreaSlicer._sanitize_polygon_bounds and
+   AreaSlicer._create_slices_from_bounds (with the int()-of-infinity test of the except clause in front), so every
+   theorem about crop_slices RO is a theorem about the generated code *)
+Theorem C11_model_is_generated_code : forall (T : Type) (OP : ops T) valid inter (a : area T) b,
+  crop_slices OP valid inter a b = crop_gen OP valid inter a b.
+Proof. exact @crop_slices_is_generated. Qed.
+Print Assumptions C11_model_is_generated_code.
+Theorem C11_generated_kernels_char : forall (T : Type) (OP : ops T) (a : area T) b xb yb,
+  gen_create_slices_from_bounds OP (xb, yb) = (gen_expand_slice (raw_slice OP xb), gen_expand_slice (raw_slice OP yb)) /\
+  gen_sanitize_polygon_bounds OP a b =
+    (if all_outside OP a (fst (bounds_to_arr OP a b)) (snd (bounds_to_arr OP a b)) then None else Some (bounds_to_arr OP a b)).
+Proof. intros T OP a b xb yb. split; [apply gen_create_char | apply gen_sanitize_char]. Qed.
+Print Assumptions C11_generated_kernels_char.
+
+(* histories of calls: the lru_cache in front of crop_source_area / _get_chunk_bboxes_for_swath_to_crop (maxsize = Some m,
+   least recently used entry evicted) and the JSON file cache of get_area_slices (maxsize = None) return, for EVERY history
+   of calls and every cache size, exactly what the uncached function returns — provided equal keys denote the same
+   geometry (key_sound: AreaDefinition.__eq__/__hash__, property C12) *)
+Theorem C11_cache_history_transparent : forall (K V : Type) (keq : K -> K -> bool) (f : K -> V) maxsize,
+  key_sound keq f -> forall ks c, cache_ok f c ->
+  fst (run keq f maxsize c ks) = map f ks /\ cache_ok f (snd (run keq f maxsize c ks)).
+Proof. exact @memo_history. Qed.
+Print Assumptions C11_cache_history_transparent.
+Example C11_cache_history_ex : fst (run Nat.eqb (fun k => k * k)%nat (Some 2%nat) [] [3; 4; 3; 5; 4; 3]%nat) = [9; 16; 9; 25; 16; 9]%nat
+  /\ length (snd (run Nat.eqb (fun k => k * k)%nat (Some 2%nat) [] [3; 4; 3; 5; 4; 3]%nat)) = 2%nat.
+Proof. exact memo_ex. Qed.
+
+(* get_area_slices on different CRSs, after the spherical intersection (oracle): slice(min idx, max idx + 1) holds the array
+   index of every intersection vertex and is their tight hull; with shape_divisible_by (composition with C19's
+   make_divisible_spec) the adjusted slice is a proper slice of the axis, divisible when the axis allows it, and still
+   holds every vertex index whenever the rounded-up length fits *)
+Theorem C11_gas_vertex_slice_hull : forall x0 xs,
+  (forall i, In i (x0 :: xs) -> (sstart (vertex_slice x0 xs) <= i < sstop (vertex_slice x0 xs))%Z) /\
+  In (sstart (vertex_slice x0 xs)) (x0 :: xs) /\ In (sstop (vertex_slice x0 xs) - 1)%Z (x0 :: xs).
+Proof. exact vertex_slice_hull. Qed.
+Print Assumptions C11_gas_vertex_slice_hull.
+Theorem C11_gas_divisible_keeps_vertices : forall x0 xs size factor,
+  (forall i, In i (x0 :: xs) -> (0 <= i < size)%Z) -> (0 < factor)%Z ->
+  let s := vertex_slice x0 xs in
+  let r := gen_make_slice_divisible s size factor in
+  divisible_good s r size factor /\
+  ((cdiv (sstop s - sstart s) factor * factor <= size)%Z -> forall i, In i (x0 :: xs) -> (sstart r <= i < sstop r)%Z).
+Proof. exact vertex_slice_divisible. Qed.
+Print Assumptions C11_gas_divisible_keeps_vertices.
+Example C11_gas_ex : vertex_slice 7 [3; 9; 5]%Z = mk_slice 3 10
+  /\ gen_make_slice_divisible (vertex_slice 7 [3; 9; 5]%Z) 12 4 = mk_slice 3 11.
+Proof. exact vertex_slice_ex. Qed.
